@@ -191,6 +191,16 @@ class FuncTypes:
         self.tuple_elems: Dict[str, list] = {}
         self._infer()
 
+    def assigned_names(self):
+        if not hasattr(self, "_assigned"):
+            self._assigned = set()
+            for a in ast.walk(self.fi.node):
+                if isinstance(a, ast.Assign):
+                    for t in a.targets:
+                        if isinstance(t, ast.Name):
+                            self._assigned.add(t.id)
+        return self._assigned
+
     def _ann_type(self, ann, has_none_default=False):
         t = None
         if ann is None:
@@ -781,7 +791,32 @@ class World:
         f = call.func
         prog = self.prog
         out: List[Target] = []
-        if isinstance(f, ast.Name):
+        if isinstance(f, ast.Name) and f.id not in fi.module.functions and f.id not in fi.module.classes and f.id in ft.assigned_names():
+            # a local bound to an entry of a constant dispatch table of functions
+            tables = []
+            for a in ast.walk(fi.node):
+                if isinstance(a, ast.Assign) and any(isinstance(t, ast.Name) and t.id == f.id for t in a.targets):
+                    v = a.value
+                    tb = None
+                    if isinstance(v, ast.Subscript):
+                        tb = v.value
+                    elif isinstance(v, ast.Call) and isinstance(v.func, ast.Attribute) and v.func.attr == "get":
+                        tb = v.func.value
+                    tables.append(tb)
+            done = False
+            if tables and all(t is not None for t in tables):
+                for tb in tables:
+                    r = prog.resolve_name_expr(fi.module, tb) if isinstance(tb, (ast.Name, ast.Attribute)) else None
+                    table = r[1].consts.get(r[2]) if r and r[0] == "const" else None
+                    if isinstance(table, ast.Dict) and table.values:
+                        for v in table.values:
+                            rv = prog.resolve_name_expr(r[1], v)
+                            if rv and rv[0] == "func":
+                                out.append(Target("func", rv[1]))
+                                done = True
+            if not done:
+                out.append(Target("unknown", name=f.id))
+        elif isinstance(f, ast.Name):
             if f.id in ft.env and ft.env.get(f.id) is not None and not (f.id in fi.module.functions or f.id in fi.module.classes):
                 out.append(Target("unknown", name=f.id))
             else:
